@@ -742,16 +742,16 @@ theorem context_clause_partial {Expr Res : Type} (stmtOf : Expr → Stmt Res) (h
 /-- non-vacuity of `C09_full`: the one-expression evaluator `exStmt` satisfies it -/
 example : C09_full (fun (_ : Unit) => exStmt) := fun _ => ⟨exStmt_local, exStmt_disciplined⟩
 
-/-! ### instantiation with the evaluator model (`Model/Eval.lean`, built by C04 on another branch)
+/-! ### instantiation with the evaluator model (`Model/Eval.lean`, builder C04)
 
-TO CONNECT AFTER MERGE: define `stmtOf (e : Eval.Expr) : Stmt Eval.Result` whose `prog cs s` is the
-context-API trace and the result of `Eval.eval` started on `(cs, s)`, and prove
-`(stmtOf e).Disciplined` (every `Function.__call__` of `Eval` allocates a child via `createChild` and the
-payloads `let / with / unpack / def / as` write through that child only - the `Step` sequence of the trace
-has no target 0) and `(stmtOf e).Local` (the evaluator reads the store through `getData / collectFunctions`
-on its frames only - `walkParents_congr`, `collectFrom_congr`).  `only_dollar`, `context_frame`,
-`reeval` and `reeval_pool` then hold for every expression of the fragment without further proof.
-Until then the two hypotheses are checked dynamically: the harness traces the real evaluator's context
-API calls and asserts `NoHostWrite` / `FreshOnly` on every trace (props/c09.py, `trace` cases). -/
+CONNECTED in `Props/C09Eval.lean` (after the merge of C04's branch): C04's evaluator works on immutable frame
+chains, so embedded as a `Stmt` its write trace on the host's store is empty and its result is a function of
+the chain read off the host's cells; `eval_C09_full` proves `C09_full` for it (every expression, every fuel) and
+`eval_reeval_pool` is `context_clause_partial` without hypotheses.  What remains an assumption there is C04's
+representation argument (a Python context is written only by the call that created it); the harness checks it
+on traces of the real evaluator (`NoHostWrite` on every trace, props/c09.py `ctx` cases).  An evaluator model
+with an explicit store would instead discharge `Disciplined` through `discipline_fresh` from the shape of its
+trace (every `Function.__call__` allocates a child via `createChild`; `let / with / unpack / def` write through
+that child only) and `Local` through `walkParents_congr` / `collectFrom_congr`. -/
 
 end Yaql.Props.C09
